@@ -32,13 +32,30 @@ type asig struct {
 }
 
 type step struct {
-	Op    string `json:"op"`
-	N     int    `json:"n"`
-	Proof []asig `json:"proof"`
-	Idx   int    `json:"idx"`
-	Part  asig   `json:"part"`
-	Res   string `json:"res"`
+	Op     string          `json:"op"`
+	N      int             `json:"n"`
+	Proof  []asig          `json:"proof"`
+	Idx    int             `json:"idx"`
+	Part   asig            `json:"part"`
+	Res    json.RawMessage `json:"res"`
+	Ctx    string          `json:"ctx"`
+	Who    int             `json:"who"`
+	Kind   string          `json:"kind"`
+	Defect string          `json:"defect"`
 }
+
+func (s step) res() string {
+	var x string
+	if json.Unmarshal(s.Res, &x) == nil {
+		return x
+	}
+	return string(s.Res)
+}
+
+// walletProvider hands the context the signing key, as the chain does for a validator
+type walletProvider struct{ w module.Wallet }
+
+func (p walletProvider) WalletFor(dsa string) module.BaseWallet { return p.w }
 
 // wire formats of btp/ntm/secp256k1proof.go
 type wirePart struct {
@@ -57,7 +74,7 @@ type world struct {
 	other   []byte
 }
 
-func newWorld(rnd *rand.Rand, uid string, n int) (*world, error) {
+func newWorld(rnd *rand.Rand, uid string, n int, ctx string) (*world, error) {
 	w := &world{uid: uid, wallets: make([]module.Wallet, n+1)}
 	keys := make([][]byte, n)
 	for i := 0; i <= n; i++ {
@@ -73,6 +90,12 @@ func newWorld(rnd *rand.Rand, uid string, n int) (*world, error) {
 	pc, err := mod.NewProofContext(keys)
 	if err != nil {
 		return nil, err
+	}
+	if ctx == "restored" {
+		// the context as a node gets it: decoded from the bytes stored in the state
+		if pc, err = mod.NewProofContextFromBytes(pc.Bytes()); err != nil {
+			return nil, err
+		}
 	}
 	w.pc = pc
 	src := []byte(fmt.Sprintf("0x%x.icon", 1+rnd.Intn(100)))
@@ -154,7 +177,13 @@ func firstLine(s string) string {
 
 func sigOf(uid string, s step) string {
 	var b bytes.Buffer
-	fmt.Fprintf(&b, "%s:%s:n%d:", uid, s.Op, s.N)
+	fmt.Fprintf(&b, "%s:%s:%s:n%d:", uid, s.Ctx, s.Op, s.N)
+	if s.Op == "newpart" {
+		fmt.Fprintf(&b, "w%d", s.Who)
+	}
+	if s.Op == "decode" {
+		fmt.Fprintf(&b, "%s:%s", s.Kind, s.Defect)
+	}
 	if s.Op == "verifyproof" && len(s.Proof) != s.N {
 		fmt.Fprintf(&b, "w%d:", len(s.Proof))
 	}
@@ -197,11 +226,11 @@ func TestReplay(t *testing.T) {
 		}
 		s := steps[0]
 		for _, uid := range []string{"eth", "icon"} {
-			wk := fmt.Sprintf("%s/%d", uid, s.N)
+			wk := fmt.Sprintf("%s/%d/%s", uid, s.N, s.Ctx)
 			w := worlds[wk]
 			if w == nil {
 				var err error
-				if w, err = newWorld(rnd, uid, s.N); err != nil {
+				if w, err = newWorld(rnd, uid, s.N, s.Ctx); err != nil {
 					return err
 				}
 				worlds[wk] = w
@@ -285,29 +314,87 @@ func TestReplay(t *testing.T) {
 					}
 					return err
 				})
+			case "newpart":
+				// the context makes the part for the holder of a key; 0 is a key outside the validator list
+				how = "NewProofPart"
+				verr, panicked = call(func() error {
+					pp, err := w.pc.NewProofPart(w.dHash, walletProvider{w.wallets[s.Who]})
+					if err != nil {
+						return err
+					}
+					wire = pp.Bytes()
+					ri, err := w.pc.VerifyPart(w.dHash, pp)
+					if err == nil && ri != s.Who-1 {
+						return fmt.Errorf("driver: the part made for validator %d verifies at index %d", s.Who-1, ri)
+					}
+					return err
+				})
+			case "decode":
+				good, _, err := w.sig(crnd, asig{Who: 1, What: "ok"})
+				if err != nil {
+					return err
+				}
+				if s.Kind == "proof" {
+					wire = codec.MustMarshalToBytes(&wireProof{Signatures: []*crypto.Signature{good}})
+				} else {
+					wire = codec.MustMarshalToBytes(&wirePart{0, good})
+				}
+				switch s.Defect {
+				case "trunc":
+					wire = wire[:1+crnd.Intn(len(wire)-1)]
+				case "scalar": // a byte string where a list is expected
+					wire = codec.MustMarshalToBytes(wire)
+				case "badsig": // a signature field that is not 64 or 65 bytes long
+					if s.Kind == "proof" {
+						wire = codec.MustMarshalToBytes(&struct{ S [][]byte }{[][]byte{make([]byte, 10+crnd.Intn(40))}})
+					} else {
+						wire = codec.MustMarshalToBytes(&struct {
+							I int
+							S []byte
+						}{0, make([]byte, 10+crnd.Intn(40))})
+					}
+				}
+				how = "decode " + s.Kind
+				verr, panicked = call(func() error {
+					if s.Kind == "proof" {
+						_, err := w.pc.NewProofFromBytes(wire)
+						return err
+					}
+					_, err := w.pc.NewProofPartFromBytes(wire)
+					return err
+				})
 			default:
 				return fmt.Errorf("unexpected op %q", s.Op)
 			}
+			want := s.res()
+			accept := want == "ok" || (s.Op == "newpart" && want != "0")
 			det := map[string]interface{}{"behaviour": steps, "uid": uid, "wire": fmt.Sprintf("%x", wire), "via": how,
-				"variants": notes, "spec": s.Res, "real": fmt.Sprint(verr)}
+				"variants": notes, "spec": want, "real": fmt.Sprint(verr)}
 			obj := "proof"
-			if s.Op == "verifypart" {
+			if s.Op == "verifypart" || s.Op == "newpart" {
 				obj = "part"
+			}
+			if s.Op == "decode" {
+				obj = "bytes:" + s.Kind
 			}
 			switch {
 			case panicked != "":
 				det["panic"] = panicked
 				violation(id, "btp"+obj+":panic", fmt.Sprintf("%s %s panics instead of rejecting n=%d %s: %s", uid, s.Op, s.N,
 					sigOf(uid, s), firstLine(panicked)), det)
-			case verr == nil && s.Res != "ok":
+			case verr == nil && !accept:
 				if s.Op == "verifyproof" && len(s.Proof) < s.N {
 					obj = "proof:narrow" // fewer slots than validators
 				} else if s.Op == "verifyproof" && len(s.Proof) > s.N {
 					obj = "proof:wide"
 				}
-				violation(id, "btp"+obj+":accepted:"+s.Res, fmt.Sprintf("%s proof context accepts a %s the spec rejects (%s): %s",
-					uid, obj, s.Res, sigOf(uid, s)), det)
-			case verr != nil && s.Res == "ok":
+				violation(id, "btp"+obj+":accepted:"+want, fmt.Sprintf("%s proof context accepts a %s the spec rejects (%s): %s",
+					uid, obj, want, sigOf(uid, s)), det)
+			case verr != nil && accept && s.Op == "newpart":
+				// the holder of a validator key must get a part that verifies at its own index
+				violation(id, "btppart:newpart:"+s.Ctx, fmt.Sprintf("%s NewProofPart for validator %d fails or yields a part that does not verify at its index: %v",
+					uid, s.Who-1, verr), det)
+			case verr != nil && accept:
 				out.Divergence(id, fmt.Sprintf("%s proof context rejects a %s the spec accepts: %s: %v", uid, obj, sigOf(uid, s), verr), det)
 			default:
 				out.OK(id, true, sigOf(uid, s))
